@@ -5,12 +5,15 @@ import re
 
 PROP = "C08"
 LEAN_MODULE = "Ztr.Props.C08"
-LEAN_DEPS = ["Ztr.Props.C14"]
+LEAN_DEPS = ["Ztr.Props.C14", "Ztr.Props.C08Options"]
 THEOREMS = [
     "Ztr.Discovery.C14_import_gate", "Ztr.Discovery.C14_module_name_has_package",
     "Ztr.Filter.C08_spec", "Ztr.Filter.C08_spec_guarded", "Ztr.Filter.C08_perm", "Ztr.Filter.C08_dup",
     "Ztr.Filter.C08_neg_never_selects", "Ztr.Filter.C08_pos_monotone",
     "Ztr.Filter.C08_pos_monotone_corner", "Ztr.Filter.C08_D13_witness",
+    # the glue in front of the predicate (Model/Options = get_options' handling of -t, -m and the positional filters)
+    "Ztr.Options.C08O_test_given", "Ztr.Options.C08O_module_given", "Ztr.Options.C08O_test_kept",
+    "Ztr.Options.C08O_D37_witness",
 ]
 RULE = ("pattern lists over an alphabet of positive/negated/anchored/alternation/empty patterns: all lists "
         "up to a length bound (all orders, duplicates) x a fixed name pool, plus random longer lists; a case is "
@@ -118,6 +121,7 @@ def run(ctx):
                 ctx.violation("duplicate matters: %r on %r" % (ps, n), {"patterns": ps, "name": n},
                               signature="dup")
     cli_defaults(ctx)
+    cli_filters(ctx)
     # the uses of the predicate: --module patterns see the imported dotted name (package included) of every
     # discovered file, and only accepted modules are imported (Model/Discovery.importedModules, C14_import_gate)
     from harness import corr_discovery
@@ -161,6 +165,56 @@ def cli_defaults(ctx):
         if list(got) != want:
             ctx.violation("get_options(%r).%s = %r, expected %r" % (args, field, got, want),
                           {"args": args, "field": field, "got": list(got)}, signature="cli-default")
+
+
+def cli_filters(ctx):
+    """Model/Options against the real get_options: every combination of 0-2 -t values, 0-2 -m values and 0-2 positional
+    filters over a small pattern alphabet (incl. '.', the empty pattern, patterns that look like options are left
+    out); monitor = the patterns handed to the predicates are the ones given, ['.'] only when none was"""
+    import contextlib
+    import io
+    import itertools
+    from zope.testrunner.options import get_options
+    alphabet = [".", "", "foo", "!bar", " x "]
+    code = {p: i for i, p in enumerate(alphabet)}
+    cases = []
+    for nt in (0, 1, 2):
+        for nm in (0, 1, 2):
+            for npos in (0, 1, 2):
+                for ts in itertools.product(alphabet, repeat=nt):
+                    for ms in itertools.product(alphabet, repeat=nm):
+                        for pos in itertools.product(alphabet, repeat=npos):
+                            cases.append((list(ts), list(ms), list(pos)))
+    if ctx.quick():
+        cases = [c for k, c in enumerate(cases) if k % 7 == ctx.seed % 7 or len(c[0]) + len(c[1]) <= 1]
+    queries = []
+    for ts, ms, pos in cases:
+        queries.append({"op": "cli_filters", "test": [code[p] for p in ts], "module": [code[p] for p in ms],
+                        "legacyModule": code[pos[0]] if len(pos) > 0 else None,
+                        "legacyTest": code[pos[1]] if len(pos) > 1 else None})
+    answers = ctx.driver.batch(queries)
+    for (ts, ms, pos), ans in zip(cases, answers):
+        args = ["prog"]
+        for p in ts:
+            args += ["-t", p]
+        for p in ms:
+            args += ["--module=%s" % p]
+        args += ["--"] + pos if pos else []
+        with contextlib.redirect_stdout(io.StringIO()):
+            o = get_options(list(args), [])
+        case = {"args": args, "real": {"test": list(o.test), "module": list(o.module)}, "model": ans}
+        ctx.count(("cli-filters", tuple(args)), nontrivial=bool(pos), sample=None)
+        ctx.bump("cli-filters")
+        want_t = ts + pos[1:2] or ["."]
+        want_m = ms + [p for p in pos[:1] if p != "."] or ["."]
+        if list(o.test) != want_t or list(o.module) != want_m:
+            ctx.violation("get_options(%r): test patterns %r (given %r), module patterns %r (given %r)" % (
+                args, list(o.test), want_t, list(o.module), want_m), case, signature="cli-default")
+            continue
+        if "error" in ans:
+            ctx.drift("options.filters", "driver error %s" % ans["error"], case)
+        elif [alphabet[i] for i in ans["test"]] != list(o.test) or [alphabet[i] for i in ans["module"]] != list(o.module):
+            ctx.drift("options.filters", "model %r real %r for %r" % (ans, case["real"], args), case)
 
 
 def replay(ctx, obj):
